@@ -200,17 +200,17 @@ def evalCall (P : Prim) (self : Expr → M PVal) (func : Expr) (args : List Expr
     | none => M.throw .invalidOp
     | some fname =>
       if allowedCalls.contains fname then
-        match consumerOf fname, args, kwargs with
-        | some c, [.genexp elt gens], [] => do
+        match consumedGenexp fname args kwargs with
+        | some (c, elt, gens) => do
           M.log (.call (.builtin fname))
           runGenexp P self c elt gens
-        | _, _, _ => do
+        | none => do
           let a ← evalList self args
           let k ← evalKwargs self kwargs
           M.log (.call (.builtin fname))
           M.lift (P.call (.builtin fname) a k)
       else if Gen.WHITELIST.contains fname then do
-        let f ← resolveWhitelisted P (.ftype "") (fname.splitOn ".")
+        let f ← resolveWhitelisted P (.ftype "") (splitDot fname)
         let a ← evalList self args
         let k ← evalKwargs self kwargs
         M.log (.call f)
@@ -229,7 +229,7 @@ def evalStep (P : Prim) (self : Expr → M PVal) (e : Expr) : M PVal :=
       if inData st id then (st, .ok ((dataGet st id).getD .none))
       else (M.bind (M.log (.fallback id)) (fun _ => M.lift (P.dynft id))) st
     | .attr v a =>
-      if a.startsWith Gen.attrRefusedPrefix then M.throw .invalidOp
+      if hasPrefix Gen.attrRefusedPrefix a then M.throw .invalidOp
       else do
         let obj ← self v
         M.log (.getattr obj a)
